@@ -305,9 +305,26 @@ func (s *vMState) enabled() []vMEvent {
 	return ev
 }
 
+// vMStuckSeen: a manager loop has been seen stuck for the full bound (a
+// deadlock inside one iteration); from then on a stuck loop is given half a
+// second only - the verdict exists, the remaining sequences add detail.
+var vMStuckSeen int32
+
+func (s *vMState) waitParked() string {
+	bound := vMTimeout
+	if atomic.LoadInt32(&vMStuckSeen) != 0 {
+		bound = 500 * time.Millisecond
+	}
+	r := s.st.WaitParked(s.m.lc.ShuttingDown(), bound)
+	if r == "timeout" {
+		atomic.StoreInt32(&vMStuckSeen, 1)
+	}
+	return r
+}
+
 func (s *vMState) stepLoop() bool {
 	s.st.Grant(1)
-	if r := s.st.WaitParked(s.m.lc.ShuttingDown(), vMTimeout); r == "timeout" {
+	if r := s.waitParked(); r == "timeout" {
 		s.note("loop neither parked nor left")
 		return false
 	}
@@ -629,7 +646,7 @@ func (s *vMState) cleanup() {
 
 func vRunMSequence(k *vManifestKit, seq []vMEvent) *vMState {
 	s := vNewMState(k)
-	if r := s.st.WaitParked(s.m.lc.ShuttingDown(), vMTimeout); r == "timeout" {
+	if r := s.waitParked(); r == "timeout" {
 		s.note("manager did not reach its loop")
 	}
 	for _, e := range seq {
@@ -667,7 +684,7 @@ func vEnumerateM(k *vManifestKit, maxLen int, visit func(seq []vMEvent)) {
 	var rec func(prefix []vMEvent)
 	rec = func(prefix []vMEvent) {
 		s := vNewMState(k)
-		s.st.WaitParked(s.m.lc.ShuttingDown(), vMTimeout)
+		s.waitParked()
 		alive := true
 		for _, e := range prefix {
 			if !s.apply(e) {
@@ -851,7 +868,7 @@ func TestVerif_C20(t *testing.T) {
 		n := r.Range(6, 10)
 		// choose events by replaying enabledness on the fly
 		s := vNewMState(k)
-		s.st.WaitParked(s.m.lc.ShuttingDown(), vMTimeout)
+		s.waitParked()
 		for j := 0; j < n; j++ {
 			en := s.enabled()
 			if len(en) == 0 {
